@@ -63,11 +63,13 @@ def run(spec, mon):
 
     # ---------------- forward + reverse, one pass
     prev_s = get_sqrt_ratio_at_tick(lo - 1) if lo > O.MIN_TICK else None
+    prev_w = H.tick_to_sqrt_price_x96(lo - 1) if lo > O.MIN_TICK else None
     s_next_cache = None
     for t, r in O.walk(lo, hi):
         if only is not None and only[1] != t:
             # replay of one tick: still need prev_s
             prev_s = get_sqrt_ratio_at_tick(t)
+            prev_w = H.tick_to_sqrt_price_x96(t)
             continue
         mon.case_id = ["tick", t]
         try:
@@ -97,6 +99,24 @@ def run(spec, mon):
                     f"ratio({t})={s} <= ratio({t - 1})={prev_s}", {"tick": t},
                 )
         prev_s = s
+        # the public wrapper (helper.tick_to_sqrt_price_x96) is the same conversion: same band, order and boundary values
+        mon.ev()
+        try:
+            w = H.tick_to_sqrt_price_x96(t)
+        except Exception as e:  # noqa
+            mon.violation("uniswap", "tick_to_sqrt_price_x96", "raises", type(e).__name__, f"tick {t}: {e!r}")
+            w = s
+        if w != s:
+            okw, ratio_w = O.band_ok(t, w, r)
+            want_b = O.MIN_SQRT_RATIO if t == O.MIN_TICK else (O.MAX_SQRT_RATIO if t == O.MAX_TICK else None)
+            if not okw:
+                mon.violation("uniswap", "tick_to_sqrt_price_x96", "error-band", "pos" if t > 0 else "nonpos",
+                              f"tick {t}: wrapper gives {w}, reference {r * O.D_Q96:.6f}, err/bound {ratio_w:.6f}", {"tick": t, "got": w})
+            elif want_b is not None and w != want_b:
+                mon.violation("uniswap", "tick_to_sqrt_price_x96", "boundary-value", str(t), f"got {w}, want {want_b}")
+            elif prev_w is not None and not w > prev_w:
+                mon.violation("uniswap", "tick_to_sqrt_price_x96", "strictly-increasing", "", f"wrapper({t})={w} <= wrapper({t - 1})={prev_w}")
+        prev_w = w
         # boundary values
         if t == O.MIN_TICK or t == O.MAX_TICK:
             mon.ev()
@@ -234,8 +254,45 @@ def _check_helpers(mon, H, ratio_at, t, d0, d1, q0):
             "uniswap", "base_unit_price_to_sqrt_price_x96", "round-trip", ori,
             f"tick {t}: ratio {s} -> price {p} -> ratio {s2}, outside [{lo_s},{hi_s}]",
         )
+    # the market's own wrappers (UniLpMarket.tick_to_price / price_to_tick) for a pool of these tokens
+    m, sp = _market(d0, d1, q0)
+    mon.ev()
+    try:
+        pm = m.tick_to_price(t)
+        rel = abs(Fraction(pm) - want) / want
+        if rel > CLOSED_TOL:
+            mon.violation("uniswap", "UniLpMarket.tick_to_price", "closed-form", ori,
+                          f"tick {t} dec ({d0},{d1}) token0_quote={q0}: got {pm}, want {float(want):.12e}, rel {float(rel):.3e}")
+        t3 = m.price_to_tick(p)
+        # price -> tick (within one tick of t) -> nearest multiple of the spacing inside the valid range
+        cands = set()
+        for tt in (t - 1, t, t + 1):
+            if O.MIN_TICK <= tt <= O.MAX_TICK:
+                cands |= set(O.nearest_usable(tt, sp))
+        if t3 not in cands:
+            mon.violation("uniswap", "UniLpMarket.price_to_tick", "round-trip", f"{ori}/spacing{sp}",
+                          f"tick {t} -> price {p} -> usable tick {t3}, expected one of {sorted(cands)} (dec {d0},{d1}, token0_quote={q0})")
+    except Exception as e:  # noqa
+        mon.violation("uniswap", "UniLpMarket.tick_to_price/price_to_tick", "raises", type(e).__name__, f"{t},{d0},{d1},{q0}: {e!r}")
     mon.nt(f"helper/{d0}/{d1}/{ori}/{t // 65536}")
     mon.sample({"tick": t, "decimals": [d0, d1], "token0_is_quote": q0, "price": str(p), "tick_back": t2}, cls=f"h{d0}{d1}{ori}")
+
+
+_MARKETS = {}
+
+
+def _market(d0, d1, q0):
+    """a data-less UniLpMarket over tokens of these decimals (only its conversion wrappers are called)"""
+    key = (d0, d1, q0)
+    if key not in _MARKETS:
+        from demeter import MarketInfo, TokenInfo
+        from demeter.uniswap import UniLpMarket, UniV3Pool
+
+        fee = (0.05, 0.3, 1, 0.01)[len(_MARKETS) % 4]
+        pool = UniV3Pool(TokenInfo("TKA", d0), TokenInfo("TKB", d1), fee, TokenInfo("TKA", d0) if q0 else TokenInfo("TKB", d1))
+        m = UniLpMarket(MarketInfo("c06"), pool)
+        _MARKETS[key] = (m, int(pool.tick_spacing))
+    return _MARKETS[key]
 
 
 def floors(merged, tier):
